@@ -8,6 +8,7 @@ import (
 	"github.com/feichai0017/NoKV/kv"
 	"github.com/feichai0017/NoKV/lsm"
 	"github.com/feichai0017/NoKV/manifest"
+	"github.com/feichai0017/NoKV/wal"
 )
 
 // Verification accessors (build tag "verif" only). They expose existing
@@ -57,6 +58,10 @@ func (db *DB) VerifRewriteVlog(bucket, fid uint32) error {
 	}
 	return err
 }
+
+// VerifWALWatchdog returns the database's own WAL watchdog (nil when disabled),
+// so that the harness can trigger its evaluation with RunOnce at chosen points.
+func (db *DB) VerifWALWatchdog() *wal.Watchdog { return db.walWatchdog }
 
 // VerifOracleState reports the oracle's next timestamp and watermarks.
 func (db *DB) VerifOracleState() (nextTs, txnDoneUntil, readDoneUntil uint64) {
